@@ -13,6 +13,7 @@ import functools
 import weakref
 
 from .loop import PAUSE, SLEEP
+from .vclock import VCLOCK
 
 
 # --------------------------------------------------------------------------- items
@@ -220,10 +221,11 @@ LOGGING_FLAVOURS = ("getitem", "sync_iter", "seq_abc", "set_abc") + ASYNC_FLAVOU
 
 class SrcPlan:
     __slots__ = ("name", "items", "flavour", "suspend", "aclose_suspends", "fresh", "aclose_mode", "falsy", "resilient",
-                 "iter_fault", "equal")
+                 "iter_fault", "equal", "slow")
 
     def __init__(self, name, items, flavour="list", suspend=(), aclose_suspends=0, fresh=False, aclose_mode=0,
-                 falsy=False, resilient=False, iter_fault=None, equal=False):
+                 falsy=False, resilient=False, iter_fault=None, equal=False, slow=None):
+        self.slow = slow  # virtual seconds that pass inside the k-th pull (clock seam), or None
         self.resilient = resilient  # (async generator) handles exceptions thrown in at its yield and continues
         self.iter_fault = iter_fault  # exception type raised by __iter__ / __aiter__ itself
         self.equal = equal  # (class-based) compares and hashes equal to every other source flagged like this
@@ -250,6 +252,7 @@ class SrcPlan:
             "resilient": self.resilient,
             "iter_fault": self.iter_fault.__name__ if self.iter_fault is not None else None,
             "equal": self.equal,
+            "slow": list(self.slow) if self.slow else None,
         }
 
 
@@ -302,6 +305,9 @@ class Source:
         if self.exhausted:
             world.repolls.add((self.name, k))
         world.log.append(("pull", self.name, k))
+        slow = self.plan.slow
+        if slow:
+            VCLOCK.advance(slow[k % len(slow)])
         return k
 
     def _resolve(self, k):
